@@ -13,10 +13,9 @@ Definition open_any_ok (vi : nat) (sw : sworld) (c : call) : Prop :=
       vi' = vi /\
       ((has flag O_CREATE = false /\ exists cs, p = abs_path cs /\ path_ok s sv SlEval cs)
        \/ (has flag O_CREATE = true /\ has flag O_EXCL = false /\
-           exists w cl, p = abs_path (w ++ [cl]) /\ path_ok s sv SlLstat (w ++ [cl]) /\ path_ok s sv SlEval (w ++ [cl])
-                        /\ no_setgid_parent_follow s sv (w ++ [cl]))
+           exists w cl, p = abs_path (w ++ [cl]) /\ path_ok s sv SlLstat (w ++ [cl]) /\ path_ok s sv SlEval (w ++ [cl]))
        \/ (has flag O_CREATE = true /\ has flag O_EXCL = true /\
-           exists w cl, p = abs_path (w ++ [cl]) /\ path_ok s sv SlLstat (w ++ [cl]) /\ no_setgid_parent s sv (w ++ [cl])))
+           exists w cl, p = abs_path (w ++ [cl]) /\ path_ok s sv SlLstat (w ++ [cl])))
   | _ => False
   end.
 
@@ -29,11 +28,11 @@ Theorem step_world_o (w : world) (vi : nat) (sw : sworld) (c : call) :
 Proof.
   intros Ha [Hc|(H & Hc)]; [exact (step_world_m w vi sw c Ha Hc)|]. pose proof Ha as (Hfs & Hv).
   destruct c; try (destruct Hc; fail).
-  destruct Hc as (-> & [(Hcr & cs & Ep & Hp)|[(Hcr & Hex & ww & cl & Ep & Hp0 & Hp & Hsg)|(Hcr & Hex & ww & cl & Ep & Hp0 & Hsg)]]);
+  destruct Hc as (-> & [(Hcr & cs & Ep & Hp)|[(Hcr & Hex & ww & cl & Ep & Hp0 & Hp)|(Hcr & Hex & ww & cl & Ep & Hp0)]]);
     apply (world_open w vi sw _ _ _ Ha); rewrite <- Hfs, Ep.
   - exact (step_open_nocreate (sw_fs sw) (sw_sv sw) vi cs flag perm H Hp Hcr).
-  - exact (step_open_create (sw_fs sw) (sw_sv sw) vi ww cl flag perm H Hp0 Hp Hsg Hcr Hex).
-  - exact (step_open_excl (sw_fs sw) (sw_sv sw) vi ww cl flag perm H Hp0 Hsg Hcr Hex).
+  - exact (step_open_create (sw_fs sw) (sw_sv sw) vi ww cl flag perm H Hp0 Hp Hcr Hex).
+  - exact (step_open_excl (sw_fs sw) (sw_sv sw) vi ww cl flag perm H Hp0 Hcr Hex).
 Qed.
 
 Theorem links_ok_spec_step_o (vi : nat) (sw : sworld) (c : call) :
@@ -87,14 +86,11 @@ Module StepHistOExamples.
     - left. split; [reflexivity|]. exists [s_rel]. split; [reflexivity|pok].
     - left. split; [reflexivity|]. exists [s_d; s_e; s_f]. split; [reflexivity|pok].
     - left. split; [reflexivity|]. exists [s_d]. split; [reflexivity|pok].
-    - right. right. split; [reflexivity|]. split; [reflexivity|]. exists [s_d], s_x. split; [reflexivity|]. split; [pok|].
-      intros par name md E. vm_compute in E. injection E as <- _ _. reflexivity.
-    - right. right. split; [reflexivity|]. split; [reflexivity|]. exists [s_d], s_x. split; [reflexivity|]. split; [pok|].
-      intros par name md E. vm_compute in E. discriminate E.
-    - right. right. split; [reflexivity|]. split; [reflexivity|]. exists [], s_dang. split; [reflexivity|]. split; [pok|].
-      intros par name md E. vm_compute in E. discriminate E.
+    - right. right. split; [reflexivity|]. split; [reflexivity|]. exists [s_d], s_x. split; [reflexivity|pok].
+    - right. right. split; [reflexivity|]. split; [reflexivity|]. exists [s_d], s_x. split; [reflexivity|pok].
+    - right. right. split; [reflexivity|]. split; [reflexivity|]. exists [], s_dang. split; [reflexivity|pok].
     - right. left. split; [reflexivity|]. split; [reflexivity|]. exists [s_d], s_x. split; [reflexivity|].
-      split; [pok|]. split; [pok|]. intros par name md E. vm_compute in E. discriminate E.
+      split; [pok|pok].
     - left. split; [reflexivity|]. exists [s_d; s_e; s_f]. split; [reflexivity|pok].
   Qed.
 
